@@ -24,9 +24,15 @@ package mtls
 // exactly or by wildcard label" is read on the lower-cased spelling of both the
 // SNI and the configured names: every case variant of an SNI selects what its
 // all-lower-case spelling selects (see also zz_verif_C13_selectcase_test.go).
-// Absent SNI: compared only when no context of the list has an empty
-// server_name (an empty server_name "matching" an absent SNI is the degenerate
-// case the statement does not decide); such cases are still executed and counted.
+// Absent SNI: a ClientHello without server_name extension has no SNI that a
+// certificate name or a server_name could "match exactly or by wildcard label",
+// and a context without server_name has no server_name: the name rule selects
+// nothing, the ALPN rule and then "first ready context" decide. (Until round 5
+// this harness left the input uncompared whenever a context of the list had no
+// server_name - which is precisely where MOSN departs: buildMatch puts the
+// empty server_name into the name set and MatchedServerName("") finds it, see
+// findings/C13-nosni.md. The case is compared now; that departure has its own
+// finding key.)
 
 import (
 	"bytes"
@@ -288,15 +294,11 @@ func c13CheckSelection(kind string) func(p *vreport.Part, c c13SelCase) {
 		if len(accepted) > 1 {
 			p.Count("cases_where_readings_of_the_statement_differ", 1)
 		}
-		// degenerate: absent SNI and a context with empty server_name
 		if c.SNI == "" {
 			for _, x := range list {
 				if x.Name.ServerName == "" {
-					p.Count("absent_sni_with_empty_server_name_not_compared", 1)
-					if got != primary {
-						p.Count("absent_sni_with_empty_server_name_differs_from_alpn_first", 1)
-					}
-					return
+					p.Count("absent_sni_and_a_context_without_server_name_compared", 1)
+					break
 				}
 			}
 		}
@@ -324,9 +326,34 @@ func c13CheckSelection(kind string) func(p *vreport.Part, c c13SelCase) {
 		if k := c13Classify(kind, list, c, got); k != "" {
 			key = k
 		}
+		if k := c13NoSNIClass(list, c.States, c.SNI, got); k != "" {
+			key = k
+		}
 		p.Violation(key, fmt.Sprintf("contexts %v states %v delivery %q, ClientHello sni=%q alpn=%v: statement selects position %v (%s), implementation presented position %d %s",
 			list, c.States, c.Delivery, c.SNI, c.ALPN, order, primaryRule, got, note), c)
 	}
+}
+
+// c13NoSNIKey names one recognisable deviation: for a ClientHello WITHOUT SNI
+// the implementation answers with the first ready context that has no
+// server_name (the empty server_name "matches" the absent SNI), so the ALPN rule
+// and the first-ready rule are never consulted. Like c13Classify it accepts
+// nothing, it only names the class of a mismatch already found.
+const c13NoSNIKey = "selection: a ClientHello without SNI is name-matched by the first ready context that has no server_name (ALPN rule skipped)"
+
+func c13NoSNIClass(list []c13Ctx, states []int, sni string, got int) string {
+	if sni != "" {
+		return ""
+	}
+	for i, x := range list {
+		if c13Ready(states[i]) && x.Name.ServerName == "" {
+			if i == got {
+				return c13NoSNIKey
+			}
+			return ""
+		}
+	}
+	return ""
 }
 
 // c13Classify gives a violation a sharper finding key when the observed answer
@@ -449,7 +476,7 @@ func TestVerifC13SelectionStatic(t *testing.T) {
 	p.Note("listeners_built", c13Builds)
 	p.End(complete, fmt.Sprintf("every ordered list of 1..%d distinct contexts out of %d (name classes %v x ALPN {none,h2,http/1.1}) x %d SNI values %q x %d client ALPN lists %v",
 		maxLen, len(c13Ctxs), c13Labels(), len(c13SNIs), c13SNIs, len(c13ClientALPN), c13ClientALPN),
-		"cartesian product; one evaluation = one ClientHello against one listener built by NewTLSServerContextManager from inline PEM contexts; compared by the leaf certificate of the returned configuration against the statement; upper-case SNI must select what its lower-case spelling selects (DNS names are case-insensitive); trailing-dot SNI and multi-label wildcard depth are compared against the union of readings; absent SNI with an empty server_name in the list is executed but not compared; distinct = cases with >=2 contexts (precedence can matter); outcome = deciding rule x presented position")
+		"cartesian product; one evaluation = one ClientHello against one listener built by NewTLSServerContextManager from inline PEM contexts; compared by the leaf certificate of the returned configuration against the statement; upper-case SNI must select what its lower-case spelling selects (DNS names are case-insensitive); trailing-dot SNI and multi-label wildcard depth are compared against the union of readings; an absent SNI matches no name (ALPN rule, then first ready), also when a context of the list has no server_name; distinct = cases with >=2 contexts (precedence can matter); outcome = deciding rule x presented position")
 }
 
 func c13Labels() []string {
